@@ -310,6 +310,23 @@ type ledger struct {
 	fired    int
 	protocol []string
 	events   []string
+	progress map[string]int  // reader name -> bytes delivered so far
+	eof      map[string]bool // reader name -> a Read returned io.EOF
+}
+
+func (l *ledger) note(name string, off int, eof bool) {
+	l.mu.Lock()
+	if l.progress == nil {
+		l.progress = map[string]int{}
+		l.eof = map[string]bool{}
+	}
+	if off > l.progress[name] {
+		l.progress[name] = off
+	}
+	if eof {
+		l.eof[name] = true
+	}
+	l.mu.Unlock()
 }
 
 func (l *ledger) ev(s string) {
@@ -380,6 +397,7 @@ func (p *planReader) Read(b []byte) (int, error) {
 		}
 	}
 	if rem == 0 {
+		p.l.note(p.name, p.off, true)
 		return 0, io.EOF
 	}
 	n := len(b)
@@ -397,7 +415,9 @@ func (p *planReader) Read(b []byte) (int, error) {
 	}
 	copy(b, p.data[p.off:p.off+n])
 	p.off += n
+	p.l.note(p.name, p.off, false)
 	if p.plan.EOFWithData && p.off == len(p.data) && !(p.plan.FailErr != nil && p.plan.FailAt >= 0 && p.plan.FailAt < len(p.data)) {
+		p.l.note(p.name, p.off, true)
 		return n, io.EOF
 	}
 	return n, nil
